@@ -104,4 +104,18 @@ theorem Cx.smul_eq_mul {K : Type} [CommRing K] (s : K) (z : Cx K) : Cx.smul s z 
 
 theorem Cx.ofRe_eq {K : Type} [CommRing K] (s : K) : (Cx.ofRe s : Cx K) = ⟨s, 0⟩ := rfl
 
+
+theorem Cx.ofRe_add {K : Type} [CommRing K] (a b : K) : (Cx.ofRe (a + b) : Cx K) = Cx.ofRe a + Cx.ofRe b := by
+  apply Cx.ext' <;> simp
+theorem Cx.ofRe_mul {K : Type} [CommRing K] (a b : K) : (Cx.ofRe (a * b) : Cx K) = Cx.ofRe a * Cx.ofRe b := by
+  apply Cx.ext' <;> simp
+theorem Cx.ofRe_zero {K : Type} [CommRing K] : (Cx.ofRe (0 : K) : Cx K) = 0 := rfl
+theorem Cx.ofRe_sum {K ι : Type} [CommRing K] (s : Finset ι) (f : ι → K) :
+    (Cx.ofRe (∑ i ∈ s, f i) : Cx K) = ∑ i ∈ s, Cx.ofRe (f i) := by
+  apply Cx.ext'
+  · simp [Cx.sum_re]
+  · simp [Cx.sum_im]
+theorem Cx.ofRe_inj {K : Type} [CommRing K] {a b : K} (h : (Cx.ofRe a : Cx K) = Cx.ofRe b) : a = b :=
+  congrArg Cx.re h
+
 end PhononModel.CP
